@@ -24,6 +24,10 @@ type overlapCase struct {
 // (NewAccessResponse). The revocation was accepted before the exchange took place, so the exchange is a later
 // use of a revoked token: it must not produce live tokens.
 func overlapRevoke(c overlapCase, res *WRes) {
+	if c.Kind == "refresh-vs-code-replay" {
+		overlapCodeReplay(c, res)
+		return
+	}
 	w := NewWorld(Profile{JWTAccess: c.JWT, Tx: c.Tx})
 	auth := w.AuthFor("A")
 	first := w.Token(url.Values{"grant_type": {"password"}, "username": {"peter"}, "password": {"pw-peter"}, "scope": {"offline a"}}, auth)
@@ -63,6 +67,46 @@ func overlapRevoke(c overlapCase, res *WRes) {
 	}
 }
 
+// overlapCodeReplay: C01 — a refresh of the code's refresh token is validated, then the code is presented again
+// (refused, and the family is revoked "from that moment"), then the refresh is completed: it must not produce live
+// tokens of the revoked grant.
+func overlapCodeReplay(c overlapCase, res *WRes) {
+	w := NewWorld(Profile{JWTAccess: c.JWT, Tx: c.Tx})
+	auth := w.AuthFor("A")
+	code := c19Authz(w, "A", "code", "offline a").Param("code")
+	cf := url.Values{"grant_type": {"authorization_code"}, "code": {code}, "redirect_uri": {"https://A.example/cb"}}
+	first := w.Token(cf, auth)
+	rt, at := first.Str("refresh_token"), first.Str("access_token")
+	if rt == "" {
+		res.note("sanity:no-refresh-token")
+		return
+	}
+	pend := w.TokenBegin(url.Values{"grant_type": {"refresh_token"}, "refresh_token": {rt}}, auth)
+	rep := w.Token(cf, auth)
+	out := w.TokenFinish(pend)
+	res.Trans += 3
+	res.class(fmt.Sprintf("%s:replay=%s:finish=%s", c.Kind, rep.Class(), out.Class()))
+	res.distinct(fmt.Sprintf("%s|%v|%v|%s", c.Kind, c.JWT, c.Tx, out.Class()))
+	if issued(rep) {
+		res.violate(Violation{Property: "C01", Fingerprint: "C01/overlapping-requests/code-replay-yielded-tokens", What: "a second presentation of a redeemed code yielded tokens", Engine: "overlap", Case: c, Expected: "invalid_grant", Observed: rep.JSON})
+		return
+	}
+	live := 0
+	for _, t := range []string{out.Str("access_token"), out.Str("refresh_token"), rt, at} {
+		if t == "" {
+			continue
+		}
+		if a, _ := w.Active(t); a {
+			live++
+		}
+	}
+	if live > 0 {
+		res.violate(Violation{Property: "C01", Fingerprint: "C01/overlapping-requests/refresh-completed-after-code-replay",
+			What:   fmt.Sprintf("a refresh validated before, and completed after, the replay of the code (answered %s) left %d token(s) of that code's grant active", rep.Class(), live),
+			Engine: "overlap", Case: c, Expected: "every token obtained from the code, directly or through refreshes, inactive", Observed: out.JSON})
+	}
+}
+
 var overlapProp = map[string]string{"code": "C01", "code-oidc": "C01", "code-pkce": "C01", "refresh": "C04", "refresh-oidc": "C04", "device": "C16", "device-contract": "C16", "bearer-jti": "C15", "client-assertion-jti": "C15"}
 
 func overlapOrders(n int) [][]int {
@@ -91,7 +135,7 @@ func overlapOrders(n int) [][]int {
 }
 
 func overlapRun(c overlapCase, res *WRes) {
-	if strings.HasPrefix(c.Kind, "refresh-vs-revoke") {
+	if strings.HasPrefix(c.Kind, "refresh-vs-") {
 		overlapRevoke(c, res)
 		return
 	}
@@ -199,7 +243,7 @@ func init() {
 			return nil, err
 		}
 		res := &WRes{}
-		if strings.HasPrefix(j.Kind, "refresh-vs-revoke") {
+		if strings.HasPrefix(j.Kind, "refresh-vs-") {
 			if j.N != 2 {
 				return res, nil
 			}
